@@ -6,12 +6,12 @@ use crate::{
         BtreeMetadata, BtreeOps, Identifiable,
         cell::OwnedCell,
         page::{BtreePage, OverflowPage},
-        tuple::{Row, Tuple, TupleError, TupleReader, TupleRef},
+        tuple::{Row, Tuple, TupleError, TupleHeader, TupleReader, TupleRef},
     },
     tree::accessor::{
         Accessor, BtreePagePosition, BtreeReadAccessor, BtreeWriteAccessor, TreeReader, TreeWriter,
     },
-    types::{PAGE_ZERO, PageId},
+    types::{DataTypeKind, PAGE_ZERO, PageId},
 };
 
 use super::{
@@ -107,6 +107,9 @@ where
     pub(crate) min_keys: usize,
     pub(crate) num_siblings_per_side: usize,
     accessor: Option<Acc>, // Lazy initialization for the accessor.
+    /// Where the key columns end inside a tuple payload (size of the null bitmap, key types): set by the entry
+    /// points that may rebalance, used to build separators that do not depend on a leaf cell's overflow chain.
+    key_layout: Option<(usize, Vec<DataTypeKind>)>,
 }
 
 impl<Acc> Btree<Acc>
@@ -137,6 +140,7 @@ where
             num_siblings_per_side,
 
             accessor: None,
+            key_layout: None,
         }
     }
 
@@ -147,6 +151,57 @@ where
 
     pub(crate) fn root_pos(&self) -> BtreePagePosition {
         Position::start_pos(self.root)
+    }
+
+    /// Remembers where the key columns of this tree's tuples end (see [`Self::separator_from`]).
+    fn remember_key_layout(&mut self, schema: &Schema) {
+        if self.key_layout.is_none() {
+            self.key_layout = Some((
+                schema.num_values().div_ceil(8),
+                schema.iter_keys().map(|c| c.datatype()).collect(),
+            ));
+        }
+    }
+
+    /// Turns a copy of a leaf cell into the separator stored in an interior page.
+    ///
+    /// A cell whose payload continues in an overflow chain used to be copied as it is, pointer included: the
+    /// separator then referenced the chain of the leaf cell, and when that row was rewritten (update, delete mark,
+    /// vacuum) the chain was released while the separator still pointed to it. Searches only read the key columns
+    /// of a separator, so when they lie entirely in the inline part the separator keeps just that prefix and owns
+    /// no overflow page. (A key that itself continues in the chain is left as it was.)
+    fn separator_from(&self, cell: OwnedCell) -> OwnedCell {
+        if !cell.metadata().is_overflow() {
+            return cell;
+        }
+        let Some((bitmap_size, key_kinds)) = self.key_layout.as_ref() else {
+            return cell;
+        };
+        let inline_len = cell.len().saturating_sub(std::mem::size_of::<PageId>());
+        let data = &cell.effective_data()[..inline_len];
+        let mut cursor = TupleHeader::SIZE + bitmap_size;
+        for kind in key_kinds {
+            if let Some(size) = kind.fixed_size() {
+                let aligned = cursor.next_multiple_of(kind.align());
+                if aligned + size > inline_len {
+                    return cell;
+                }
+                cursor = aligned + size;
+            } else {
+                if cursor >= inline_len {
+                    return cell;
+                }
+                match kind.deserialize(data, cursor) {
+                    Ok((_, next)) if next <= inline_len => cursor = next,
+                    _ => return cell,
+                }
+            }
+        }
+        let mut separator = OwnedCell::new(&data[..cursor]);
+        if let Some(left) = cell.left_child() {
+            separator.set_left_child(Some(left));
+        }
+        separator
     }
 
     pub(crate) fn is_initialized(&self) -> bool {
@@ -710,6 +765,7 @@ where
         data: Tuple,
         schema: &Schema,
     ) -> BtreeResult<()> {
+        self.remember_key_layout(schema);
         let target_cursor = Tuple::keys_offset(schema.num_values());
         let search_result = self.page_search(
             self.get_root(),
@@ -816,6 +872,7 @@ where
         data: Tuple,
         schema: &Schema,
     ) -> BtreeResult<()> {
+        self.remember_key_layout(schema);
         let target_cursor = Tuple::keys_offset(schema.num_values());
         let search_result = self.page_search(
             self.get_root(),
@@ -845,6 +902,7 @@ where
         data: Tuple,
         schema: &Schema,
     ) -> BtreeResult<()> {
+        self.remember_key_layout(schema);
         let target_cursor = Tuple::keys_offset(schema.num_values());
         let search_result = self.page_search(
             self.get_root(),
@@ -871,6 +929,7 @@ where
         tuple: &Tuple,
         schema: &Schema,
     ) -> BtreeResult<()> {
+        self.remember_key_layout(schema);
         let target_cursor = Tuple::keys_offset(schema.num_values());
         let search_result = self.page_search(
             self.get_root(),
@@ -909,6 +968,7 @@ where
         key: &[u8],
         schema: &Schema,
     ) -> BtreeResult<()> {
+        self.remember_key_layout(schema);
         let start_pos: BtreePagePosition = Position::start_pos(page_id);
         let search = self.search(key, schema)?;
 
@@ -1032,7 +1092,7 @@ where
         // Choose the appropiate cell to propagate based on the type of page.
         // We need to copy  because we also need to insert it on the new leaves (this is a Bplustree, so the data must reside on the leaf pages.)
         let mut propagated_cell = if was_leaf {
-            right_cells.first().unwrap().clone()
+            self.separator_from(right_cells.first().unwrap().clone())
         } else {
             left_cells.last().unwrap().clone()
         };
@@ -1303,7 +1363,8 @@ where
                 // Obtain the first child
                 if let Some(first_child_id) = next_page.child(0) {
                     let child_page = self.get_page_mut(first_child_id)?;
-                    let mut cell = child_page.owned_cell(0);
+                    let copied = child_page.owned_cell(0);
+                    let mut cell = self.separator_from(copied);
 
                     // Make the copied cell point to our right child and push it to the chain.
                     cell.set_left_child(Some(right_most_child_id));
@@ -1411,7 +1472,9 @@ where
             // Note that the last node's  next is the right frontier, which gets propagated afterwards.
             if i < siblings.len() - 1 && is_leaf {
                 // Simply create a copy of the next node's front cell, make it point towards ourselves and propagate.
-                let mut divider = cells.front().unwrap().clone();
+                let front = cells.front().unwrap().clone();
+                let mut divider = self.separator_from(front);
+                let current_iter_page = self.get_page_mut(current_iter_id)?;
                 current_iter_page.set_right_child(divider.left_child());
                 divider.set_left_child(Some(current_iter_id));
                 let parent_page = self.get_page_mut(parent_page_id)?;
@@ -1445,7 +1508,8 @@ where
             let last_sibling_id = last_sibling.entry();
             let last_sibling_slot = last_sibling.slot();
 
-            let mut divider_cell = page.owned_cell(0);
+            let copied = page.owned_cell(0);
+            let mut divider_cell = self.separator_from(copied);
             divider_cell.set_left_child(Some(last_sibling_id));
             let parent_page = self.get_page_mut(parent_page_id)?;
             parent_page.insert(last_sibling_slot, divider_cell)?;
@@ -1606,12 +1670,14 @@ where
         // In order to unfuck the parent, we replace the entry that pointed to left with the right node's first key
         let divider = match direction {
             BorrowDirection::RightToLeft => {
-                let mut separator = self.get_page_mut(source_page_id)?.owned_cell(0);
+                let copied = self.get_page_mut(source_page_id)?.owned_cell(0);
+                let mut separator = self.separator_from(copied);
                 separator.set_left_child(Some(target_page_id));
                 separator
             }
             BorrowDirection::LeftToRight => {
-                let mut separator = self.get_page_mut(target_page_id)?.owned_cell(0);
+                let copied = self.get_page_mut(target_page_id)?.owned_cell(0);
+                let mut separator = self.separator_from(copied);
                 separator.set_left_child(Some(source_page_id));
                 separator
             }
